@@ -3,8 +3,8 @@ from verif import Case
 from gen_util import *
 import pyref, pyhdr, itertools
 
-MODULES = ["WowSrp.Props.C11", "WowSrp.Props.C11Wrath", "WowSrp.Props.Source.Structural.C11", "WowSrp.Props.Session", "WowSrp.Props.Source.Facade", "WowSrp.Props.Source.LayoutsVanillaTbc", "WowSrp.Props.Source.LayoutsWrath", "WowSrp.Props.Source.Glue.Vanilla", "WowSrp.Props.Source.Glue.Tbc", "WowSrp.Props.Source.Glue.Wrath", "WowSrp.Props.Source.Shape.HeaderMods"]
-THEOREMS = ["C11_constants", "C11_failed_read_server", "C11_failed_read_client", "C11_failed_read_wrath_server", "C11_failed_read_wrath_client", "C11_failed_read_at_offset", "C11_failed_read_short", "C11_wrath_fifth_byte", "C11_wrath_fifth_byte_at_offset", "C11_wrath_fifth_byte_resume", "C11_write_wrappers", "C11_write_error_propagates", "C11_write_ok", "C11_write_error_at_offset", "C11_write_ok_fragmented", "C11_write_wrappers_wrote", "C11_write_never_swallowed", "C11_header_lengths", "C11_write_panic", "C11_read_ok_server", "C11_read_ok_client", "C11_read_ok_wrath_server", "C11_read_ok_wrath_client_small", "C11_read_ok_wrath_client_large", "C11_read_fragmentation", "C11_read_fragmentation_wrath_client", "C11_read_fragmentation_same", "C11_layout_server", "C11_layout_client", "C11_layout_server_values", "C11_parse_layout_server", "C11_parse_layout_client", "C11_typed_eq_raw", "C11_typed_eq_raw_wrath", "C11_facade_eq_half", "C11_facade_eq_half_iff", "C11_split_is_fields", "C11_agree_encrypt_server_header", "C11_wrath_facade_eq_half_client", "C11_wrath_facade_eq_half_server", "C11_wrath_facade_eq_half", "C11_wrath_facade_eq_half_iff", "C11_wrath_facade_eq_half_io_iff", "C11_wrath_split_is_fields", "C11_wrath_failed_read_facade", "C11_wrath_failed_read_facade_at_offset", "C11_source_structural_impls", "Session_step_refines", "Session_run_refines", "WF_fresh", "Session_step_needs_array_lengths", "C11_source_facade_delegates", "C11_translated_layout_vanilla", "C11_translated_layout_tbc", "C11_translated_parse", "C11_translated_layout_wrath", "C11_facade_io_eq_half", "C11_facade_io_eq_half_iff", "C11_failed_read_facade", "C11_failed_read_facade_at_offset", "C11_failed_read_facade_short", "C11_source_glue_vanilla", "C11_source_glue_tbc", "C11_source_glue_wrath", "C11_source_shape_headermods"]
+MODULES = ["WowSrp.Props.C11", "WowSrp.Props.C11Wrath", "WowSrp.Props.Source.Structural.C11", "WowSrp.Props.Session", "WowSrp.Props.Source.Facade", "WowSrp.Props.Source.LayoutsVanillaTbc", "WowSrp.Props.Source.LayoutsWrath", "WowSrp.Props.Source.Glue.Vanilla", "WowSrp.Props.Source.Glue.Tbc", "WowSrp.Props.Source.Glue.Wrath", "WowSrp.Props.Source.Shape.C11"]
+THEOREMS = ["C11_constants", "C11_failed_read_server", "C11_failed_read_client", "C11_failed_read_wrath_server", "C11_failed_read_wrath_client", "C11_failed_read_at_offset", "C11_failed_read_short", "C11_wrath_fifth_byte", "C11_wrath_fifth_byte_at_offset", "C11_wrath_fifth_byte_resume", "C11_write_wrappers", "C11_write_error_propagates", "C11_write_ok", "C11_write_error_at_offset", "C11_write_ok_fragmented", "C11_write_wrappers_wrote", "C11_write_never_swallowed", "C11_header_lengths", "C11_write_panic", "C11_read_ok_server", "C11_read_ok_client", "C11_read_ok_wrath_server", "C11_read_ok_wrath_client_small", "C11_read_ok_wrath_client_large", "C11_read_fragmentation", "C11_read_fragmentation_wrath_client", "C11_read_fragmentation_same", "C11_layout_server", "C11_layout_client", "C11_layout_server_values", "C11_parse_layout_server", "C11_parse_layout_client", "C11_typed_eq_raw", "C11_typed_eq_raw_wrath", "C11_facade_eq_half", "C11_facade_eq_half_iff", "C11_split_is_fields", "C11_agree_encrypt_server_header", "C11_wrath_facade_eq_half_client", "C11_wrath_facade_eq_half_server", "C11_wrath_facade_eq_half", "C11_wrath_facade_eq_half_iff", "C11_wrath_facade_eq_half_io_iff", "C11_wrath_split_is_fields", "C11_wrath_failed_read_facade", "C11_wrath_failed_read_facade_at_offset", "C11_source_structural_impls", "Session_step_refines", "Session_run_refines", "WF_fresh", "Session_step_needs_array_lengths", "C11_source_facade_delegates", "C11_translated_layout_vanilla", "C11_translated_layout_tbc", "C11_translated_parse", "C11_translated_layout_wrath", "C11_facade_io_eq_half", "C11_facade_io_eq_half_iff", "C11_failed_read_facade", "C11_failed_read_facade_at_offset", "C11_failed_read_facade_short", "C11_source_glue_vanilla", "C11_source_glue_tbc", "C11_source_glue_wrath", "C11_source_shapes"]
 RULE = ("for each expansion x role: typed helpers vs raw operation on the wire layout, facade vs accessor vs split halves (same op list, same bytes), "
         "Read wrappers under scripted readers: every fragmentation pattern (all compositions of the header length in thorough), interruptions, and a "
         "failure (each of 8 io::ErrorKinds, Ok(0), end of input) injected at every byte offset of every header kind (Vanilla/TBC 4- and 6-byte, Wrath "
